@@ -163,8 +163,11 @@ func (p *projector) project(epc *common.EpochsContext, pubs []common.BLSPubkey) 
 	start := common.Slot(epc.CurrentEpoch.Epoch) * p.spec.SLOTS_PER_EPOCH
 	for i := range props {
 		pr, err := epc.GetBeaconProposer(start + common.Slot(i))
-		check(err)
-		props[i] = int(pr)
+		if err != nil {
+			props[i] = -1 // the context cannot name a proposer for a slot of its own current epoch
+		} else {
+			props[i] = int(pr)
+		}
 	}
 	m["props"] = props
 	eff := make([]int, len(epc.EffectiveBalances))
@@ -370,6 +373,8 @@ type summary struct {
 	MaxReg   int            `json:"max_registry"`
 	Sample   []interface{}  `json:"sample"`
 	Stopped  string         `json:"stopped"`
+	// Unbuildable: zrnt failed to build the chain's genesis (no observation at all)
+	Unbuildable bool `json:"unbuildable"`
 }
 
 func (r *recorder) emit(ev map[string]interface{}) {
@@ -398,7 +403,23 @@ func (r *recorder) logCtx(l *line, sc *chain.StateCtx, n0 int, kind string, o ou
 	reg, pubs := r.proj.registry(inner)
 	ev["reg"] = reg
 	ev["sync"], ev["sck"], ev["snk"] = r.proj.syncKeys(inner)
-	live := r.proj.project(sc.Epc, pubs)
+	var live map[string]interface{}
+	if perr := func() (perr string) {
+		defer func() {
+			if p := recover(); p != nil {
+				perr = fmt.Sprint(p)
+			}
+		}()
+		live = r.proj.project(sc.Epc, pubs)
+		return ""
+	}(); perr != "" {
+		// the long-lived context cannot even be read: report the point as a failed one
+		ev["out"], ev["err"] = "panic", "reading the long-lived context: "+perr
+		ev["live"], ev["fresh"], ev["reg"] = map[string]interface{}{}, map[string]interface{}{}, []int{}
+		ev["peer"] = map[string]interface{}{"has": 0}
+		r.emit(ev)
+		return
+	}
 	ev["live"] = live
 	fresh, err := common.NewEpochsContext(sc.Spec, inner)
 	check(err)
@@ -728,8 +749,10 @@ func record(cfg chainCfg, f *os.File) {
 		steps = chain.RandomScenario(rand.New(rand.NewSource(cfg.Seed)), spec, chain.ScenarioOpts{Epochs: cfg.Epochs, Validators: cfg.Validators})
 	}
 	if err != nil {
-		fmt.Fprintln(os.Stderr, "build chain:", err)
-		os.Exit(2)
+		// zrnt could not even build the genesis of this chain: reported, the runner decides what it means
+		_ = json.NewEncoder(os.Stdout).Encode(summary{Chain: cfg.Name, Stopped: "build chain: " + err.Error(), Unbuildable: true,
+			Steps: map[string]int{}, Lines: map[string]int{}, Flags: map[string]int{}, ByFork: map[string]int{}})
+		return
 	}
 	spec := c.Spec
 	unit := common.Gwei(1)
@@ -753,10 +776,24 @@ func record(cfg chainCfg, f *os.File) {
 		r.logCtx(l, l.sc, l.n0, "genesis", o, o, o.Root, l.sc.Slot(), l.sc.Fork(), int(l.sc.ValidatorCount()), []map[string]int{})
 	}
 
+	// a panic inside zrnt while the chain harness produces or applies a block ends the scenario, not the recording
+	defer func() {
+		if p := recover(); p != nil {
+			r.sum.Stopped = fmt.Sprintf("panic while running the scenario: %v", p)
+			_ = json.NewEncoder(os.Stdout).Encode(r.sum)
+		}
+	}()
 	runSteps := func(ch *chain.Chain, sts []chain.StepPlan) bool {
 		_, err := ch.RunScenario(sts)
 		if err != nil {
 			r.sum.Stopped = err.Error()
+			// the harness could not continue the chain (zrnt refused or could not serve block production): the
+			// following slots are still points of the chain, observe slot processing alone for a bit more than an epoch
+			for _, l := range r.lines[ch] {
+				if l.peer == nil && !l.dead {
+					r.sideSlots(l, step{kind: "slots", to: l.sc.Slot() + ch.Spec.SLOTS_PER_EPOCH + 1}, l.sc.Slot(), int(l.sc.ValidatorCount()), true)
+				}
+			}
 			return false
 		}
 		return true
